@@ -135,6 +135,45 @@ def refine_check(spec, exprs, refines, inst, poly=True):
                 nlp.prove_equal(name + ":final-entry-is-the-final-node-when-dynamically-feasible", res[:, npts - 1], fin)
 
 
+def sampler_check(spec, exprs, inst):
+    """the function returned by sampler, at the gist and a time t inside integrator step (k,l), is the expression
+    on the step polynomial at local time t - t_{k,l} with interval-k control"""
+    import z3
+    c = ctx()
+    spec.build()
+    ocp = spec.ocp
+    built = [(ex, ex.on(spec.atom)) for ex in exprs]
+    meth = spec.transcribe()
+    orc = Oracle(spec, meth).expected()
+    N, M = spec.N, spec.M
+    ts = orc.ts
+    for k in range(N):
+        c.assume(ca.tz((ts[k + 1] - ts[k]).e[0]) > 0)        # T > 0: strictly increasing grid
+    f = ocp.sampler("smp", [e for _, e in built])
+    gist = ocp.gist
+    from vc.core import isolated, fresh_real
+    for k in range(N):
+        h = (ts[k + 1] - ts[k]) / M
+        for l in range(M):
+            def one(k=k, l=l, h=h):
+                cc = ctx()
+                tq = fresh_real("tq")
+                t_lo = ts[k] + l * h if l else ts[k]
+                t_hi = ts[k] + (l + 1) * h if l + 1 < M else ts[k + 1]
+                cc.assume(tq >= ca.tz(t_lo.e[0]))
+                cc.assume(tq < ca.tz(t_hi.e[0]))
+                T = ca.MX._raw(1, 1, [tq])
+                res = f(gist, T)
+                res = [res] if not isinstance(res, (tuple, list)) else list(res)
+                d0 = orc.integrator_env(k, l, orc.xk)
+                d = dict(d0)
+                d["t"] = T
+                d["x"] = poly_at(meth.poly_coeff[k * M + l], T - t_lo)
+                for (ex, _), r in zip(built, res):
+                    nlp.prove_equal("%s|stage:Stage.sampler:ensures:[%s,k=%d,l=%d]" % (inst, ex.name, k, l), r, ex.on(lambda a, d=d: d[a]))
+            isolated(one, inst)
+
+
 def tasks(tier, prop="C08"):
     out = []
     exprs = lambda: [E("s1", 1, ("x", "u", "t", "p", "pc")), E("s2", 2, ("x", "t"))]
@@ -151,4 +190,15 @@ def tasks(tier, prop="C08"):
                                 ode=E("f", None, ("x", "u", "t", "p", "pc")), label=label)
                     refine_check(spec, exprs(), (2, 3), label, poly=(prop == "C08"))
                 out.append(Task(label, fn, kind="bounded", bound=dict(method=meth, intg=intg, N=N, M=M, grid=g, T=list(Tk), refine=[2, 3])))
+    if prop == "C08":
+        for meth, intg in (("MS", "rk"), ("DC", None), ("SS", "expl_euler")):
+            for gname, g, Tk in grids_all:
+                if tier != "thorough" and gname not in ("uniform", "geometric", "geometric-Tfree"):
+                    continue
+                label = "C08/%s%s-N3-M2-%s-sampler" % (meth, "-" + intg if intg else "", gname)
+                def fn(meth=meth, intg=intg, g=g, Tk=Tk, label=label):
+                    spec = Spec(method=meth, intg=intg or "rk", N=3, M=2, degree=2, grid=dict(g), T=Tk, t0=("unknown",),
+                                ode=E("f", None, ("x", "u", "t")), label=label)
+                    sampler_check(spec, [E("q1", 1, ("x", "u", "t")), E("q2", 2, ("x",))], label)
+                out.append(Task(label, fn, kind="bounded", bound=dict(method=meth, intg=intg, N=3, M=2, grid=g, T=list(Tk), query_time="symbolic within each integrator step")))
     return out
